@@ -2,7 +2,7 @@
 // independent random orders, saved to a BinaryStream and to a .cp file; restored object k must be bit-identical to ITS
 // original.  Also hosts the 'typed' family dispatcher and main().
 #include <c05/c05.hpp>
-#include <control/checkpoint_control.hpp>
+#include <c05/cpobj.hpp>
 using namespace c05;
 
 void c05_typed_vec(vh::Ctx&); void c05_typed_csr(vh::Ctx&); void c05_typed_bcsr(vh::Ctx&); void c05_typed_bd(vh::Ctx&);
@@ -18,85 +18,6 @@ VH_FAMILY(typed)
   }
 }
 
-namespace
-{
-  using FEAT::Control::CheckpointControl;
-  struct Obj
-  {
-    std::string kind; Snap orig; bool edge = false; std::string summary;
-    virtual ~Obj() {}
-    virtual void add(CheckpointControl& cp, const String& id) = 0;
-    virtual void restore(CheckpointControl& cp, const String& id, bool add) = 0;
-    virtual void reset_target(bool junk) = 0;
-    virtual Snap source_now() const = 0;
-    virtual Snap restored() const = 0;
-    virtual bool feat_equal() const = 0;
-  };
-  template<typename C>
-  struct ObjT : Obj
-  {
-    C a, b; std::function<C()> junkfn;
-    ObjT(const std::string& k, C&& a_, std::function<C()> j) : a(std::move(a_)), junkfn(j) { kind = k; orig = snap(a); }
-    void add(CheckpointControl& cp, const String& id) override { cp.add_object(id, a); }
-    void restore(CheckpointControl& cp, const String& id, bool add_) override { cp.restore_object(id, b, add_); }
-    void reset_target(bool junk) override { b = junk ? junkfn() : C(); }
-    Snap source_now() const override { return snap(a); }
-    Snap restored() const override { return snap(b); }
-    bool feat_equal() const override { return a == b; }
-  };
-  vl::MatSpec junk_spec() { vl::MatSpec j; j.rows = 2; j.cols = 3; j.t = {{0, 1, 5.0}, {1, 0, -5.0}, {1, 2, 2.5}}; j.classify(); return j; }
-
-  template<typename DT, typename IT>
-  std::unique_ptr<Obj> make_obj(vh::Ctx& c, int kind)
-  {
-    const std::string ty = std::is_same<DT, double>::value ? "<double,u64>" : "<float,u32>";
-    vl::GenOpt o; o.max_dim = c.thorough() ? 80 : 16; o.allow_dim0 = false;
-    std::unique_ptr<Obj> r;
-    switch(kind)
-    {
-    case 0: { const Index n = gen_len(c.rng); auto v = vl::gen_vec(c.rng, n, int(c.rng.below(4)));
-        r.reset(new ObjT<DenseVector<DT, IT>>("dv" + ty, mk_dv<DT, IT>(v), [] { return mk_dv<DT, IT>({9.0, -9.0, 9.5}); })); r->edge = n == 0; r->summary = "size " + std::to_string(n); break; }
-    case 1: { const Index n = gen_len(c.rng); auto v = vl::gen_vec(c.rng, n * 2, int(c.rng.below(4)));
-        r.reset(new ObjT<DenseVectorBlocked<DT, IT, 2>>("dvb" + ty, mk_dvb<DT, IT, 2>(v), [] { return mk_dvb<DT, IT, 2>({9.0, -9.0, 9.5, 1.0}); })); r->edge = n == 0; r->summary = "blocks " + std::to_string(n); break; }
-    case 2: { const Index n = gen_len(c.rng); SVSpec s = gen_sv(c.rng, n, 1);
-        r.reset(new ObjT<SparseVector<DT, IT>>("sv" + ty, mk_sv<DT, IT>(s, vh::Rng(c.rng.next())), [] { SVSpec j; j.n = 5; j.idx = {1, 3}; j.val = {7.0, -7.0}; return mk_sv<DT, IT>(j, vh::Rng(1)); }));
-        r->edge = n == 0 || s.idx.empty(); r->summary = "size " + std::to_string(n) + " used " + std::to_string(s.idx.size()); break; }
-    case 3: { const Index n = gen_len(c.rng); SVSpec s = gen_sv(c.rng, n, 2);
-        r.reset(new ObjT<SparseVectorBlocked<DT, IT, 2>>("svb" + ty, mk_svb<DT, IT, 2>(s), [] { SVSpec j; j.n = 5; j.idx = {1, 3}; j.val = {7.0, -7.0, 1.0, 2.0}; return mk_svb<DT, IT, 2>(j); }));
-        r->edge = n == 0 || s.idx.empty(); r->summary = "size " + std::to_string(n) + " used " + std::to_string(s.idx.size()); break; }
-    case 4: { vl::MatSpec m = vl::gen_matrix(c.rng, o);
-        r.reset(new ObjT<SparseMatrixCSR<DT, IT>>("csr" + ty, vl::make_csr<DT, IT>(m), [] { return vl::make_csr<DT, IT>(junk_spec()); }));
-        r->edge = m.t.empty(); r->summary = std::to_string(m.rows) + "x" + std::to_string(m.cols) + " nnz " + std::to_string(m.t.size()); break; }
-    case 5: { o.max_dim = c.thorough() ? 30 : 8; vl::MatSpec bm = vl::gen_matrix(c.rng, o), sm;
-        r.reset(new ObjT<SparseMatrixBCSR<DT, IT, 2, 3>>("bcsr" + ty, vl::make_bcsr<DT, IT, 2, 3>(c.rng, bm, sm), [] { vl::MatSpec js; vh::Rng jr(5); return vl::make_bcsr<DT, IT, 2, 3>(jr, junk_spec(), js); }));
-        r->edge = bm.t.empty(); r->summary = "blocks " + std::to_string(bm.rows) + "x" + std::to_string(bm.cols) + " nnzb " + std::to_string(bm.t.size()); break; }
-    case 6: { vl::MatSpec m = vl::gen_matrix(c.rng, o);
-        r.reset(new ObjT<SparseMatrixBanded<DT, IT>>("banded" + ty, vl::make_banded<DT, IT>(c.rng, m), [] { vl::MatSpec j = junk_spec(); vh::Rng jr(7); return vl::make_banded<DT, IT>(jr, j); }));
-        r->summary = std::to_string(m.rows) + "x" + std::to_string(m.cols); break; }
-    case 7: { vl::MatSpec m = vl::gen_matrix(c.rng, o);
-        r.reset(new ObjT<SparseMatrixCSCR<DT, IT>>("cscr" + ty, vl::make_cscr<DT, IT>(m), [] { return vl::make_cscr<DT, IT>(junk_spec()); }));
-        r->edge = m.t.empty(); r->summary = std::to_string(m.rows) + "x" + std::to_string(m.cols) + " nnz " + std::to_string(m.t.size()); break; }
-    default: { o.max_dim = c.thorough() ? 40 : 12; vl::MatSpec m = vl::gen_matrix(c.rng, o);
-        r.reset(new ObjT<DenseMatrix<DT, IT>>("dm" + ty, vl::make_dense<DT, IT>(m), [] { return vl::make_dense<DT, IT>(junk_spec()); }));
-        r->summary = std::to_string(m.rows) + "x" + std::to_string(m.cols); break; }
-    }
-    return r;
-  }
-  std::string gen_id(vh::Rng& r, const std::vector<std::string>& have)
-  {
-    static const char cs[] = "abcdefgXYZ0123456789_-./: ";
-    for(;;)
-    {
-      std::string id;
-      if(!have.empty() && r.coin(0.35)) id = r.pick(have);                 // extends an existing identifier (prefix relation)
-      if(!have.empty() && r.coin(0.15) && r.pick(have).size() > 1) { const std::string& h = r.pick(have); id = h.substr(0, 1 + r.below(h.size() - 1)); } // proper prefix
-      const int n = int(r.range(id.empty() ? 1 : 0, 12));
-      for(int i = 0; i < n; ++i) id += cs[r.below(sizeof(cs) - 1)];
-      if(!id.empty() && std::find(have.begin(), have.end(), id) == have.end()) return id;
-    }
-  }
-}
-
 VH_FAMILY(checkpoint)
 {
   const int nobj = c.k < 9 ? 1 : int(c.rng.range(1, 8));
@@ -104,78 +25,14 @@ VH_FAMILY(checkpoint)
   for(int i = 0; i < nobj; ++i)
   {
     const int kind = c.k < 9 ? int(c.k) : int(c.rng.below(9));
-    objs.push_back(c.rng.coin() ? make_obj<double, u64>(c, kind) : make_obj<float, u32>(c, kind));
+    objs.push_back(c.rng.coin() ? make_plain_obj<double, u64>(c, kind) : make_plain_obj<float, u32>(c, kind));
     ids.push_back(gen_id(c.rng, ids));
   }
-  bool edge = false; std::set<std::string> kinds;
-  for(auto& o : objs) { edge = edge || o->edge; kinds.insert(o->kind.substr(0, o->kind.find('<'))); }
+  std::set<std::string> kinds;
+  for(auto& o : objs) kinds.insert(o->kind.substr(0, o->kind.find('<')));
   std::vector<std::string> base = {nobj == 1 ? "nobj:1" : nobj <= 4 ? "nobj:2-4" : "nobj:5-8", "kinds:" + std::to_string(kinds.size())};
-  if(edge) base.push_back("has_empty_object");
   if(nobj == 1) base.push_back("only:" + *kinds.begin());
-  { vh::J arr('['); for(int i = 0; i < nobj; ++i) arr.add_raw(vh::J().kv("id", ids[std::size_t(i)]).kv("kind", objs[std::size_t(i)]->kind).kv("shape", objs[std::size_t(i)]->summary).str()); c.desc = vh::J().raw("objects", arr.str()).str(); }
-  // pre-drawn choices of the two sub-operations (0: BinaryStream, 1: .cp file)
-  struct Plan { std::vector<int> reg, res; std::vector<char> junk, add; bool same_control; };
-  Plan plan[2];
-  for(int s = 0; s < 2; ++s)
-  {
-    plan[s].reg.resize(std::size_t(nobj)); plan[s].res.resize(std::size_t(nobj));
-    for(int i = 0; i < nobj; ++i) plan[s].reg[std::size_t(i)] = plan[s].res[std::size_t(i)] = i;
-    c.rng.shuffle(plan[s].reg); c.rng.shuffle(plan[s].res);
-    for(int i = 0; i < nobj; ++i) { plan[s].junk.push_back(c.rng.coin()); plan[s].add.push_back(c.rng.coin()); }
-    plan[s].same_control = c.rng.coin(0.3);
-  }
-  tmpdir();
-  auto pathfn = [&](int s) { return tmpdir() + "/k" + std::to_string((unsigned long long)c.k) + "_cp" + std::to_string(s); };
-  auto opfn = [&](int s) { return std::string(s == 0 ? "checkpoint.binarystream" : "checkpoint.file"); };
-  vg::group_ops(c, opfn, edge, 2,
-    [&](int s) { return vg::with(base, {plan[s].same_control ? "loader:same_control" : "loader:new_control"}); },
-    [&](int s) { return std::string(plan[s].same_control ? "same" : "new") + (edge ? "|has_empty_object" : ""); },
-    [&](Rep& rep, int s) {
-      const Plan& p = plan[s]; const std::string op = opfn(s);
-      auto comm = FEAT::Dist::Comm::world();
-      CheckpointControl cp(comm), cp2(comm);
-      for(int i : p.reg) objs[std::size_t(i)]->add(cp, String(ids[std::size_t(i)]));
-      { // every identifier is listed
-        const String lst = cp.get_identifier_list(); std::vector<std::string> got; std::size_t q = 0;
-        while(q <= lst.size()) { std::size_t e = lst.find('\n', q); if(e == std::string::npos) e = lst.size(); got.push_back(lst.substr(q, e - q)); q = e + 1; }
-        std::vector<std::string> want = ids; std::sort(want.begin(), want.end()); std::sort(got.begin(), got.end());
-        if(got != want) rep.viol(op, "identifier-list", vh::J().kv("got", std::string(lst)).str());
-      }
-      for(int i = 0; i < nobj; ++i) objs[std::size_t(i)]->reset_target(p.junk[std::size_t(i)] != 0);
-      CheckpointControl& loader = p.same_control ? cp : cp2;
-      if(s == 0)
-      {
-        FEAT::BinaryStream bs;
-        cp.save(bs);
-        bs.seekg(0);
-        loader.load(bs);
-      }
-      else
-      {
-        const std::string path = pathfn(s) + ".cp";
-        cp.save(String(path));
-        loader.load(String(path));
-        ::unlink(path.c_str());
-      }
-      for(int i : p.res) objs[std::size_t(i)]->restore(loader, String(ids[std::size_t(i)]), !p.same_control && p.add[std::size_t(i)] != 0);
-      NoRep quiet;
-      for(int i = 0; i < nobj; ++i)
-      {
-        Obj& o = *objs[std::size_t(i)];
-        if(!same_bits(quiet, op, o.orig, o.source_now())) rep.viol(op, "input-modified", vh::J().kv("object", i).kv("kind", o.kind).str());
-        const Snap got = o.restored();
-        if(!same_bits(quiet, op, o.orig, got))
-        {
-          int sibling = -1;
-          for(int j = 0; j < nobj; ++j) if(j != i && same_bits(quiet, op, objs[std::size_t(j)]->orig, got)) sibling = j;
-          rep.viol(op, sibling >= 0 ? "restored-a-sibling" : "restored-object-differs",
-            vh::J().kv("object", i).kv("kind", o.kind).kv("id", ids[std::size_t(i)]).kv("shape", o.summary).kv("equals_object", sibling).str());
-          same_bits(rep, op, o.orig, got); // detail record: which table / array / position
-        }
-      }
-    });
-  if(edge) ::unlink((pathfn(1) + ".cp").c_str());
-  c.tags = base; c.sig = vg::sig_of("checkpoint", base);
+  run_checkpoint_case(c, "checkpoint", objs, ids, base);
 }
 
 VH_FEAT_MAIN
